@@ -66,12 +66,19 @@ class Reg:
         return o
 
 
+def as_iter(x: Any) -> Any:
+    """What `yield from` can delegate to: a generator-based coroutine / generator as it is, anything else through __await__."""
+    if isinstance(x, types.GeneratorType):
+        return x
+    return x.__await__()
+
+
 class Wrapper:
     def __init__(self, inner: Any):
         self.inner = inner
 
     def __await__(self) -> Any:
-        return self.inner.__await__()
+        return as_iter(self.inner)
 
 
 class GenAwait:
@@ -86,7 +93,7 @@ class GenAwait:
         return self.gen
 
     def _g(self) -> Any:
-        return (yield from self.mk().__await__())
+        return (yield from as_iter(self.mk()))
 
 
 def make_awaitable(kinds: List[str], terminal: str, reg: Reg, pre: bool) -> Callable[[], Any]:
@@ -113,7 +120,9 @@ def make_awaitable(kinds: List[str], terminal: str, reg: Reg, pre: bool) -> Call
         def gnode() -> Any:
             if pre:
                 yield from done()
-            return (yield from inner())
+            x = inner()
+            # a generator-based coroutine may delegate to a native coroutine or a generator directly; other awaitables through __await__
+            return (yield from (x if isinstance(x, (types.GeneratorType, types.CoroutineType)) else x.__await__()))
 
         return lambda: reg.own(gnode())
     if k == "await_wrapper":
